@@ -150,6 +150,9 @@ class OraclesMixin:
             digest = sha(lib_names)
         if op == "join" and "O6" in self.fam:
             self.join_rows_oracle(pt, step, inputs)
+        elif op == "join" and "O16" in self.fam and (inputs[0].m.same_as == inputs[1].id or inputs[1].m.same_as == inputs[0].id or step.get("selfjoin")):
+            self.note("selfjoin_with_origin")
+            self.join_rows_oracle(pt, step, inputs, prop="C16", orc="O16.2")
         if "O16" in self.fam and op in REROOT_OPS:
             self.reroot_oracle(pt, step, inputs)
         return digest
@@ -442,10 +445,10 @@ class OraclesMixin:
                 return self.refs[rid][rep]
         return None
 
-    def join_rows_oracle(self, pt, step, inputs):
+    def join_rows_oracle(self, pt, step, inputs, prop="C06", orc="O6.4"):
         l, r = inputs
         lm, rm = l.m, r.m
-        if lm.rowid is None or rm.rowid is None:
+        if not lm.rowid or not rm.rowid:
             self.stats["o64_skipped_rowid"] += 1
             return
         on = step["on"]
@@ -493,7 +496,7 @@ class OraclesMixin:
                 ).rows()
             )
             if res[0] != "ok":
-                self.violate("C06", "O6.3", f"row-id references of the inputs cannot be used on the join result ({rep}): {res[1]}: {str(res[2])[:120]}", how=how, rep=rep)
+                self.violate(prop, "O6.3" if prop == "C06" else orc, f"row-id references of the inputs cannot be used on the join result ({rep}): {res[1]}: {str(res[2])[:120]}", how=how, rep=rep)
             got = sorted(res[1], key=lambda t: tuple((v is not None, v or 0) for v in t))
 
             def mk_val(lrow, rrow):
@@ -543,8 +546,8 @@ class OraclesMixin:
                 self.note("join_empty_side")
             if exp != got:
                 self.violate(
-                    "C06",
-                    "O6.4",
+                    prop,
+                    orc,
                     f"{how} join on {rep}: expected {len(exp)} row combinations, got {len(got)}; first diff {self.first_diff(exp, got)}",
                     how=how,
                     rep=rep,
